@@ -205,6 +205,39 @@ def specRangeOps (a : List String) : Option String :=
 
 def specCanon (_a : List String) : Option String := some "all:nopanic;;has:same=1 "
 
+/-- split the arguments of `c15` at the `|` separators -/
+def splitBars (l : List String) : List (List String) :=
+  let rec go : List String → List String → List (List String)
+    | [], cur => if cur.isEmpty then [] else [cur.reverse]
+    | t :: rest, cur => if t == "|" then (if cur.isEmpty then go rest [] else cur.reverse :: go rest []) else go rest (t :: cur)
+  go l []
+
+/-- number of showdowns of one iterator request (independent of the entry order) -/
+def iterCount (a : List String) : Option Nat :=
+  match parseIter a with
+  | none => none
+  | some q =>
+    let ev0 : Evaluator UInt32 := Evaluator.new q.board q.ranges
+    let (tf, rf, tt, rt) := q.scope
+    let evR : Res (Evaluator UInt32) := if q.setScope == 0 then .ok ev0 else ev0.scope tf rf tt rt q.debug
+    match evR with
+    | .ok ev =>
+      match ev.intoIter with
+      | .ok s =>
+        match drainFuel f32Ops 100000000 s [] with
+        | .ok (sds, _) => some sds.length
+        | _ => none
+      | _ => none
+    | _ => none
+
+/-- the model has no notion of interleaving beyond `C15_interleave`: every instance yields its solo sequence -/
+def opC15 (a : List String) : String :=
+  let reqs := splitBars (a.drop 2)
+  let ns := reqs.map iterCount
+  if ns.all Option.isSome then
+    s!"ok k={reqs.length} inter=1 threads=1 n={",".intercalate (ns.map fun n => toString (n.getD 0))}"
+  else "panic"
+
 def textOp (op : String) (a : List String) : Option String :=
   match op with
   | "parse_token" => some (opParseToken a)
@@ -212,6 +245,7 @@ def textOp (op : String) (a : List String) : Option String :=
   | "token_roundtrip" => some (opTokenRoundtrip a)
   | "range_ops" => some (opRangeOps a)
   | "canon" => some (opCanon a)
+  | "c15" => some (opC15 a)
   | _ => none
 
 def textSpec (op : String) (a : List String) : Option String :=
@@ -223,6 +257,7 @@ def textSpec (op : String) (a : List String) : Option String :=
       | none => some "all:nopanic")
   | "range_ops" => specRangeOps a
   | "canon" => specCanon a
+  | "c15" => some "all:nopanic;;has:inter=1 threads=1 "
   | _ => none
 
 end Driver
